@@ -37,6 +37,8 @@ struct TokenParser {
     parse_steps: usize,
     max_parse_steps: usize,
     budget_exhausted: bool,
+    /// Parse steps spent on sub-expressions that desugaring copied (see `charge_duplicate`).
+    duplicated_steps: usize,
     /// Nesting level of the production being parsed (expressions, patterns, clauses).
     nesting: usize,
     /// Upper bound of `nesting + height of the sub-tree built so far` at this level.
@@ -57,6 +59,8 @@ impl TokenParser {
     const BP_NOT: u8 = 40;
     const PARSE_STEP_FACTOR: usize = 2_048;
     const PARSE_STEP_FLOOR: usize = 50_000;
+    /// Desugaring may copy at most this many times the work of parsing the input.
+    const DUPLICATION_FACTOR: usize = 64;
     /// Maximum nesting of expressions, patterns and sub-queries. The parser, the
     /// planner, the evaluator and the destructors of the syntax tree recurse once (or a
     /// few times) per level, so unbounded nesting overflows the stack. The values keep an
@@ -79,6 +83,7 @@ impl TokenParser {
             parse_steps: 0,
             max_parse_steps,
             budget_exhausted: false,
+            duplicated_steps: 0,
             nesting: 0,
             nesting_mark: 0,
         }
@@ -125,6 +130,29 @@ impl TokenParser {
             return Err(Self::nesting_limit_error());
         }
         self.nesting_mark += 1;
+        Ok(())
+    }
+
+    /// Size of everything parsed so far, counting copied sub-expressions once per copy.
+    fn weight_mark(&self) -> usize {
+        self.parse_steps.saturating_add(self.duplicated_steps)
+    }
+
+    /// Some constructs are desugared by copying an operand (the operand of a simple CASE
+    /// into every WHEN, the shared operand of `a < b < c`, the subject of `x:A:B`). Nested
+    /// inside each other the copies double the tree per level, so they are charged against
+    /// a budget proportional to the input instead of being made unconditionally.
+    fn charge_duplicate(&mut self, weight: usize) -> Result<(), Error> {
+        self.duplicated_steps = self.duplicated_steps.saturating_add(weight.max(1));
+        let budget = self
+            .tokens
+            .len()
+            .saturating_mul(Self::DUPLICATION_FACTOR)
+            .max(Self::PARSE_STEP_FLOOR);
+        if self.duplicated_steps > budget {
+            self.budget_exhausted = true;
+            return Err(Self::parser_complexity_error());
+        }
         Ok(())
     }
 
@@ -1095,7 +1123,9 @@ impl TokenParser {
                 self.consume(&TokenType::With, "Expected WITH after STARTS/ENDS")?;
             }
 
+            let rhs_start = self.weight_mark();
             let rhs = self.parse_expression_bp(rbp)?;
+            let mut chain_left_weight = self.weight_mark() - rhs_start;
             self.chain_link()?;
             if Self::is_chainable_comparison_operator(&op) {
                 // Comparison chains are equivalent to pairwise comparisons joined by AND:
@@ -1114,7 +1144,11 @@ impl TokenParser {
                     if next_needs_with {
                         self.consume(&TokenType::With, "Expected WITH after STARTS/ENDS")?;
                     }
+                    // `chain_left` now appears in two comparisons
+                    self.charge_duplicate(chain_left_weight)?;
+                    let next_start = self.weight_mark();
                     let next_rhs = self.parse_expression_bp(next_rbp)?;
+                    chain_left_weight = self.weight_mark() - next_start;
                     self.chain_link()?;
                     let chained_cmp = Self::binary_expr(chain_left, next_op, next_rhs.clone());
                     combined = Self::binary_expr(combined, BinaryOperator::And, chained_cmp);
@@ -1189,6 +1223,7 @@ impl TokenParser {
 
     fn parse_primary_expression(&mut self) -> Result<Expression, Error> {
         self.ensure_budget()?;
+        let primary_start = self.weight_mark();
         let mut expr = match &self.peek().token_type {
             TokenType::LeftParen => {
                 if let Some(pattern) = self.try_parse_relationship_pattern_predicate() {
@@ -1451,7 +1486,12 @@ impl TokenParser {
             }
 
             if self.match_token(&TokenType::Colon) {
+                let subject_weight = self.weight_mark() - primary_start;
                 let labels = self.parse_expression_label_chain()?;
+                for _ in &labels {
+                    // the subject is copied into one HasLabel test per label
+                    self.charge_duplicate(subject_weight)?;
+                }
                 expr = self.build_expression_label_predicate(expr, labels);
                 continue;
             }
@@ -1613,11 +1653,13 @@ impl TokenParser {
         //    CASE WHEN <cond> THEN <expr> ... [ELSE <expr>] END
         // 2) Simple CASE:
         //    CASE <expr> WHEN <value> THEN <expr> ... [ELSE <expr>] END
+        let operand_start = self.weight_mark();
         let case_operand = if self.check(&TokenType::When) {
             None
         } else {
             Some(self.parse_expression_bp(0)?)
         };
+        let operand_weight = self.weight_mark() - operand_start;
 
         let mut when_clauses = Vec::new();
         while self.match_token(&TokenType::When) {
@@ -1625,6 +1667,7 @@ impl TokenParser {
             self.consume(&TokenType::Then, "Expected THEN after CASE WHEN condition")?;
             let value = self.parse_expression_bp(0)?;
             let cond = if let Some(ref operand) = case_operand {
+                self.charge_duplicate(operand_weight)?;
                 Expression::Binary(Box::new(BinaryExpression {
                     left: operand.clone(),
                     operator: BinaryOperator::Equals,
@@ -2089,6 +2132,29 @@ mod tests {
             "// c\n".repeat(50_000)
         );
         Parser::parse(&query).expect("comments before a query parse");
+    }
+
+    #[test]
+    fn nested_desugaring_copies_are_bounded() {
+        // each level used to double the syntax tree (2^35 nodes for a 1 KB query)
+        let case = format!(
+            "RETURN {}1{}",
+            "CASE ".repeat(35),
+            " WHEN 1 THEN 1 END".repeat(35)
+        );
+        let chain = format!("RETURN {}1{}", "1 < (".repeat(18), ") < 3".repeat(18));
+        let labels = format!("MATCH (n) RETURN {}n{}", "(".repeat(35), ":A:B)".repeat(35));
+        for query in [case, chain, labels] {
+            let err = Parser::parse(&query).expect_err("exponential desugaring must be rejected");
+            assert_eq!(
+                err.to_string(),
+                "syntax error: ParserComplexityLimitExceeded"
+            );
+        }
+        Parser::parse(
+            "RETURN CASE 1 + 2 WHEN 1 THEN 'a' WHEN 3 THEN 'b' ELSE 'c' END, 1 < 2 <= 3 < 4",
+        )
+        .expect("ordinary simple CASE and comparison chains parse");
     }
 
     #[test]
